@@ -3,6 +3,7 @@
 package tun
 
 import (
+	"strings"
 	"testing"
 
 	"pgregory.net/rapid"
@@ -28,7 +29,16 @@ func TestC05B(t *testing.T) {
 			rec.NonTrivial(common.HashJSON(p))
 		}
 		rec.Sample("bubble", map[string]any{"plan": p})
-		return oracleC05(p, br.Result)
+		if f := oracleC05(p, br.Result); f != nil {
+			return f
+		}
+		// the receiver's rules, which make the end-to-end clause hold on every link and not only on the sampled one: the
+		// client acknowledges the expected request and the one before it, and nothing else (an acknowledgement for an
+		// older number can be taken by the gateway, 256 telegrams later, for one the client never saw)
+		if f := oracleC04(p, br.Result, false); f != nil && strings.HasPrefix(f.Kind, "ack-") {
+			return f
+		}
+		return nil
 	}
 	common.Drive(t, rec, func(rt *rapid.T) *Plan { return genPlanC05(rt) }, run)
 	completed = true
